@@ -138,6 +138,68 @@ theorem set_shape_keeps_counter (s : State) (a : ShapeArg) :
     (step s (.setShape a)).shape = a.norm ∧ (step s (.setShape a)).last = s.last :=
   ⟨rfl, rfl, rfl, rfl⟩
 
+/-! ### robustness classes (R1, R3, R4, R7) on the model -/
+
+/-- R4 (rejected calls): a call that raises — negative or non-integer request
+    size, missing skip argument, invalid shape — leaves the whole state (counter,
+    shape, phase epoch, `get_samples()`) exactly as it was. -/
+theorem rejected_request_keeps_state (s : State) (r : RawOp) (e : PyErr)
+    (h : (stepR s r).2 = some e) : (stepR s r).1 = s := by
+  unfold stepR at h ⊢
+  cases hc : r.check with
+  | ok op => rw [hc] at h; simp at h
+  | error e' => rfl
+
+/-- non-vacuity of `rejected_request_keeps_state`: requests that are rejected exist
+    (negative size → `ValueError`, non-integer size → `TypeError`, shape with a
+    negative dimension → `ValueError`), and an integer-valued size is accepted. -/
+example : (stepR (construct .none) (.gen (.int (-3)))).2 = some .ValueError ∧
+    (stepR (construct .none) (.skip .notInt)).2 = some .TypeError ∧
+    (stepR (construct .none) (.setShape (.seq [2, -1]))).2 = some .ValueError ∧
+    (stepR (construct .none) (.gen (.int 40000))).1.k = 40001 := by decide
+
+/-- R4, continued: a history with rejected calls in it ends in the same state as
+    the history of its accepted calls alone (an object that never saw the
+    rejected calls), so every later request returns the same block. -/
+theorem rejected_requests_invisible (s : State) (rs : List RawOp) (ops : List Op) :
+    runR s rs = run s (accepted rs) ∧
+    trace (runR s rs) ops = trace (run s (accepted rs)) ops := by
+  rw [runR_eq_run_accepted]; exact ⟨rfl, rfl⟩
+
+/-- R1 (element types): an accepted call acts through the integer VALUE of its
+    argument only (`operator.index`): whatever integer type carried the size
+    `n ≥ 0`, the step is the step of the Python-int request `n`; sizes `0` and
+    `1` and the default argument are ordinary cases. -/
+theorem request_value_only (s : State) (n : Nat) :
+    stepR s (.gen (.int n)) = (step s (.gen (some n)), none) ∧
+    stepR s (.skip (.int n)) = (step s (.skip n), none) ∧
+    stepR s (.gen .default) = (step s (.gen (some 1)), none) := by
+  refine ⟨rfl, rfl, ?_⟩
+  simp [stepR, RawOp.check, step, genBlock, reqCount]
+
+/-- R1, continued: the sample counter is an unbounded integer — it never wraps
+    or decreases, whatever the sizes and however long the history. -/
+theorem counter_monotone (s : State) (ops : List Op) : s.k ≤ (run s ops).k := by
+  rw [run_k]; exact Nat.le_add_right _ _
+
+/-- R3 (outputs are fresh values): the block a request produced is not changed
+    by anything that is requested afterwards. -/
+theorem produced_independent_of_future (s : State) (pre post : List Op) (op : Op) :
+    (trace s (pre ++ op :: post))[pre.length]? = (trace s (pre ++ [op]))[pre.length]? := by
+  rw [trace_at, trace_at]
+
+/-- R7 (long-lived objects): after any history a generator behaves like a fresh
+    one with the current shape and phase draw that skipped to the same sample
+    number — every later history of requests produces the same blocks. -/
+theorem history_equiv_fresh (s : State) (pre ops : List Op) (l : Option Block) :
+    trace (run s pre) ops =
+      trace (step { k := 0, shape := shapeAfter s.shape pre, epoch := s.epoch + redraws pre, last := l }
+              (.skip (s.k + total pre))) ops := by
+  apply trace_congr
+  · rw [run_k]; simp [step]
+  · rw [run_shape]; rfl
+  · rw [run_epoch]; rfl
+
 /-- Sample number `k` is taken at `k · Ts`: the process starts at time 0 and
     consecutive samples — inside a request or across a request boundary — are
     exactly `Ts` apart. -/
